@@ -118,6 +118,14 @@ def rs(s: dict, pk: Picker, depth: int) -> dict:
             members = [rs(m, Picker([0]), depth + 1) for m in s["allOf"]]
             own = {kk: v for kk, v in core.items() if kk != "additionalProperties"}
             core = {"allOf": members + [own], **({"additionalProperties": core["additionalProperties"]} if "additionalProperties" in core else {})}
+            if nullable and depth > 0:
+                # a nullable inline composition: 3.0 keyword beside an explicit type, 3.1 type list, explicit union with null
+                c = pk.pick(3, depth)
+                if c == 0:
+                    return {"type": "object", "nullable": True, **core, **desc}
+                if c == 1:
+                    return {"type": ["object", "null"], **core, **desc}
+                return {"oneOf": [{"type": "object", **core, **desc}, {"type": "null"}], **desc}
             return {**core, **desc}
     elif k == "const":
         return {"const": s["value"], **desc}
@@ -144,13 +152,24 @@ def render(ir: dict, bits) -> tuple[dict, Picker]:
 @st.composite
 def cases(draw, tier):
     prof = docs.profile(max_schemas=4, max_props=4, max_ops=2, max_depth=2, desc=True, security=False, allof=True, affix_names=True,
-                        component_unions=True,
+                        component_unions=True, inline_allof=True,
                         null_in_enum=True)
     ir = draw(docs.doc_ir(prof))
     for op in ir["ops"]:
         for p in op["params"]:
             p["level"] = "op"
     comps = docs.comp_map(ir)
+    plain_objs = [n for n, sc in ir["schemas"] if sc["k"] == "object"]
+    if plain_objs and draw(st.integers(0, 2)) == 0:
+        # a nullable inline composition (the three notations of 'nullable' meet allOf)
+        tgt = draw(st.sampled_from(plain_objs))
+        inner = {"k": "object", "props": [["onlyNote", {"k": "str"}, draw(st.booleans())], ["onlyCount", {"k": "int"}, False]], "addl": None,
+                 "allOf": [{"k": "ref", "name": tgt}], "nullable": True}
+        if draw(st.booleans()):
+            inner["desc"] = "text nullable composition"
+        ir["schemas"].append(["ZzNullableComposed", {"k": "object", "props": [["inner", inner, draw(st.booleans())], ["label", {"k": "str"}, False]],
+                                                     "addl": None, "allOf": []}])
+        comps = docs.comp_map(ir)
 
     def mark(sc):
         if sc.get("k") == "ref" and sc.get("nullable") and comps.get(sc["name"], {}).get("k") == "object" and draw(st.booleans()):
@@ -189,7 +208,11 @@ def cases(draw, tier):
     if draw(st.integers(0, 3)) == 0:
         # text outside the Basic Multilingual Plane: json.dump writes it as an escaped surrogate pair, which a YAML loader rejects
         ir["title"] = "Verif \U0001F680 API"
-    return {"ir": ir, "bits": bits, "yaml": draw(st.integers(0, 2)) == 0, "url": draw(st.integers(0, 3)) == 0,
+    url = draw(st.integers(0, 3)) == 0
+    encoding = "utf-8"
+    if url and draw(st.booleans()) and ir.get("title") in (None, "Verif API"):
+        encoding = "cp1252"     # path versus URL under another *output* encoding (one that can write every character of the templates)
+    return {"ir": ir, "bits": bits, "yaml": draw(st.integers(0, 2)) == 0, "url": url, "encoding": encoding,
             "ctype_params": draw(st.booleans()), "cfg": {"literal_enums": draw(st.booleans())}}
 
 
@@ -296,7 +319,14 @@ def run(case, ctx):
     ir = case["ir"]
     base_doc, _ = render(ir, [0])
     alt_doc, pk = render(ir, case["bits"])
-    a = sut.generate(base_doc, cfg=case.get("cfg") or {}, pkg_name="pkg")
+    enc = case.get("encoding") or "utf-8"
+    if enc != "utf-8":
+        # the output encoding is a property of what is *written*; the document is UTF-8 whatever it is (non-ASCII text as raw bytes)
+        ctx.label("file_encoding:" + enc)
+        for d_ in (base_doc, alt_doc):
+            d_["info"]["title"] = "V\u00e9rif caf\u00e9s API"
+            d_["info"]["description"] = "D\u00e9j\u00e0 vu \u2014 na\u00efve"
+    a = sut.generate(source=sut.write_doc(base_doc, raw_unicode=enc != "utf-8"), cfg=case.get("cfg") or {}, pkg_name="pkg", encoding=enc)
     ctx.evals()
     try:
         if a.exc is not None or not a.accepted:
@@ -312,7 +342,7 @@ def run(case, ctx):
     if case.get("url") and case.get("ctype_params"):
         suffix = ".charset.yaml" if case.get("yaml") else ".charset.json"
         ctx.label("url_content_type_with_parameter")
-    src = sut.write_doc(alt_doc, as_yaml=bool(case.get("yaml")), suffix=suffix)
+    src = sut.write_doc(alt_doc, as_yaml=bool(case.get("yaml")), suffix=suffix, raw_unicode=enc != "utf-8")
     if case.get("yaml"):
         # keep only documents the YAML round trip preserves under the harness' own loader
         from ruamel.yaml import YAML
@@ -322,7 +352,7 @@ def run(case, ctx):
                 ctx.skip("yaml_roundtrip_not_identity")
                 return
     source = server_url(src) if case.get("url") else src
-    b = sut.generate(source=source, cfg=case.get("cfg") or {}, pkg_name="pkg")
+    b = sut.generate(source=source, cfg=case.get("cfg") or {}, pkg_name="pkg", encoding=enc)
     ctx.evals()
     site = {"yaml": bool(case.get("yaml")), "url": bool(case.get("url")), "rewrites": pk.applied > 0}
     try:
